@@ -16,7 +16,8 @@
 //   The prologue runs on the main thread (tid 0) before the logical threads start; after they have
 //   finished the main thread destroys every trigger still alive (ascending id), polls every detector
 //   still alive and destroys it.
-// Every object is used by one thread at a time (the generator hands each object to one logical thread).
+// Triggers are used by one thread at a time; a detector made in the prologue may be POLLED (ck / pr / wt) by several
+// threads at once (isTripped() is const; the library itself shares detectors between threads).
 #include "gmlc/concurrency/TripWire.hpp"
 
 #include "vclient.hpp"
@@ -510,6 +511,39 @@ Script tw_gen(Rng& r, int size)
             s.threads[size_t(e - 1)].push_back("rm:" + S(i));
         }
     }
+    // isTripped() is const and the library itself shares one detector between threads (members of shared objects):
+    // let a second thread poll detectors made in the prologue that nobody destroys
+    for (size_t i = 0; i < pro.size(); ++i) {
+        if (pro[i].compare(0, 4, "mkD:") != 0 || !r.chance(1, 2)) {
+            continue;
+        }
+        std::string id = pro[i].substr(4, pro[i].find(':', 4) - 4);
+        std::string ln = pro[i].substr(pro[i].find(':', 4) + 1);
+        if (ln.compare(0, 2, "ix") == 0 && atoi(ln.c_str() + 2) >= NIDX) {
+            continue;  // construction throws std::out_of_range: there is no such detector
+        }
+        bool destroyed = false;
+        for (auto& op : pro) {
+            if (op == "rd:" + id) {
+                destroyed = true;
+            }
+        }
+        for (auto& th : s.threads) {
+            for (auto& op : th) {
+                if (op == "rd:" + id) {
+                    destroyed = true;
+                }
+            }
+        }
+        if (destroyed) {
+            continue;
+        }
+        auto& th = s.threads[size_t(r.below(g.nthreads))];
+        int n = 1 + r.below(3);
+        for (int k = 0; k < n; ++k) {
+            th.insert(th.begin() + r.below(int(th.size()) + 1), "ck:" + id);
+        }
+    }
     s.config = S(nexpl);
     if (!pro.empty()) {
         s.config += "/";
@@ -549,6 +583,10 @@ std::vector<Script> tw_directed()
         parse("2/mkT:0:e0.mkT:1:e1;w:0,rm:0;mkD:0:e0,w:1,wt:0,r:0,rm:1;mkD:1:e1,wt:1,r:1,r:0"),
         // a trigger left alive until the epilogue; prologue trips a line before the threads start
         parse("2/mkT:0:e0.mkT:1:e1.rm:1.mkD:0:e1.mkD:1:e0;ck:0,ck:1;ck:1,ck:0"),
+        // ONE detector polled by two threads at once (const method; the library shares detectors between threads):
+        // both must synchronise with the trigger before reading what it published
+        parse("1/mkT:0:e0.mkD:0:e0;w:0,rm:0;wt:0,r:0;wt:0,r:0"),
+        parse("1/mkT:0:e0.mkD:0:e0;w:0,rm:0;ck:0,ck:0,pr:0:0,pr:0:0;ck:0,pr:0:0,ck:0,pr:0:0"),
     };
 }
 }  // namespace
